@@ -48,6 +48,7 @@ HEADER = ('From Coq Require Import List NArith ZArith Bool String Ascii '
           'C15.Model C15.Exec.\nOpen Scope string_scope.\n')
 
 KNOWN_CLASS = 'like_but_imp_max'
+VOID_CLASS = 'like_but_mat_void'
 
 
 # ---------------------------------------------------------------------------
@@ -300,7 +301,7 @@ def strip_header(text):
 # sweep: LIKE deck against its explicit expansion
 # ---------------------------------------------------------------------------
 
-def diff_cells(obs_a, obs_b, ignore_importance=()):
+def diff_cells(obs_a, obs_b, ignore_importance=(), ignore_density=()):
     '''Cells of two parsed decks that differ, with the differing fields.'''
     diffs = []
     if obs_a.result[0] != 'ok' or obs_b.result[0] != 'ok':
@@ -317,6 +318,8 @@ def diff_cells(obs_a, obs_b, ignore_importance=()):
             if fa[name] != fb[name]:
                 if name == 'importance' and key in ignore_importance:
                     continue
+                if name == 'density' and key in ignore_density:
+                    continue
                 diffs.append((key, name, fa[name], fb[name]))
     sa = [k for k in obs_a.result[2] if k not in ignore_importance]
     sb = [k for k in obs_b.result[2] if k not in ignore_importance]
@@ -332,6 +335,7 @@ def sweep_deck(res, deck, text, rng, do_points):
     expanded = gen.expand(deck)
     text_exp = gen.render(expanded)
     dec = gen.imp_decreasing_cells(deck)
+    void = gen.void_mat_cells(deck)
     conv_like = impl.convert(text, keep_stdout=False)
     conv_exp = impl.convert(text_exp, keep_stdout=False)
     if conv_like.ok != conv_exp.ok or \
@@ -341,6 +345,8 @@ def sweep_deck(res, deck, text, rng, do_points):
     elif conv_like.ok and strip_header(conv_like.text) != \
             strip_header(conv_exp.text):
         cls = None
+        if void and not dec:
+            cls = void_signature(deck, text, text_exp, void)
         if dec:
             conv_max = impl.convert(gen.render(gen.expand(deck, 'max')),
                                     keep_stdout=False)
@@ -350,7 +356,10 @@ def sweep_deck(res, deck, text, rng, do_points):
         failures.append(('file', 'the written file of the LIKE deck differs '
                          'from the written file of its explicit expansion'
                          + (f' (cells {dec}: BUT IMP lower than the '
-                            'inherited card importance)' if cls else ''),
+                            'inherited card importance)'
+                            if cls == KNOWN_CLASS else '')
+                         + (f' (cells {void}: BUT MAT=0 with an inherited '
+                            'density)' if cls == VOID_CLASS else ''),
                          cls))
     # parsed cells, field by field
     obs_like = ImplDeck(text)
@@ -369,6 +378,12 @@ def sweep_deck(res, deck, text, rng, do_points):
                 if all(cells[k].importance ==
                        gen.chain_max_importance(by_id, k) for k in dec):
                     cls = KNOWN_CLASS
+            if void and not dec and not diff_cells(obs_like, obs_exp,
+                                                   ignore_density=void):
+                cells = obs_like.result[1]
+                if all(cells[k].materialID == '0' and
+                       cells[k].density is not None for k in void):
+                    cls = VOID_CLASS
             failures.append(('parsed', 'parsed cells of the LIKE deck differ '
                              f'from its explicit expansion: {diffs[:4]}', cls))
         # generator's own reading of get_cells and of the geometry
@@ -394,6 +409,22 @@ def sweep_deck(res, deck, text, rng, do_points):
     if do_points and conv_like.ok and conv_exp.ok:
         failures.extend(points_check(deck, expanded, conv_like, conv_exp, rng))
     return failures, obs_like
+
+
+def void_signature(deck, text, text_exp, void):
+    '''VOID_CLASS when the parsed cells of the two decks differ only by the
+    density kept on the cells made void by BUT MAT=0.'''
+    obs_like, obs_exp = ImplDeck(text), ImplDeck(text_exp)
+    if obs_like.setup_error is not None or obs_exp.setup_error is not None \
+            or obs_like.result[0] != 'ok' or obs_exp.result[0] != 'ok':
+        return None
+    if diff_cells(obs_like, obs_exp, ignore_density=void):
+        return None
+    cells = obs_like.result[1]
+    if all(cells[k].materialID == '0' and cells[k].density is not None
+           for k in void):
+        return VOID_CLASS
+    return None
 
 
 def points_check(deck, expanded, conv_like, conv_exp, rng):
@@ -510,6 +541,22 @@ WITNESS_EXPANDED = WITNESS.replace('2 like 1 but imp:n=0 trcl=(5 0 0)',
                                    '2 1 -1.0 -1 imp:n=0 trcl=(5 0 0)')
 
 
+WITNESS_VOID = WITNESS.replace('2 like 1 but imp:n=0 trcl=(5 0 0)',
+                               '2 like 1 but mat=0 trcl=(5 0 0)')
+WITNESS_VOID_EXPANDED = WITNESS.replace('2 like 1 but imp:n=0 trcl=(5 0 0)',
+                                        '2 0 -1 imp:n=1 trcl=(5 0 0)')
+
+
+def witness_void_fails():
+    a = impl.convert(WITNESS_VOID, keep_stdout=False)
+    b = impl.convert(WITNESS_VOID_EXPANDED, keep_stdout=False)
+    if not (a.ok and b.ok):
+        return True, f'{a} / {b}'
+    same = strip_header(a.text) == strip_header(b.text)
+    names = [n for n, _ in impl.T4File(a.text).geomcomp]
+    return not same, f'GEOMCOMP names of the LIKE file: {names}'
+
+
 def witness_fails():
     a = impl.convert(WITNESS, keep_stdout=False)
     b = impl.convert(WITNESS_EXPANDED, keep_stdout=False)
@@ -526,9 +573,9 @@ def witness_fails():
 def run(res, tier, seed, proofs_ok):
     rng = random.Random(seed)
     quick = tier == 'quick'
-    n_valid = 200 if quick else 2600
-    n_dec = 24 if quick else 250
-    n_edge = 200 if quick else 2400
+    n_valid = 150 if quick else 2600
+    n_dec = 16 if quick else 250
+    n_edge = 160 if quick else 2400
     n_points = 40 if quick else 400
     res.rule = (
         'abstract decks: 1-3 explicit level-0 bodies (sphere, box, cylinder, '
@@ -552,30 +599,47 @@ def run(res, tier, seed, proofs_ok):
                                  'expanded': WITNESS_EXPANDED}},
                       cls=KNOWN_CLASS, found_input=True)
 
+    fails, detail = witness_void_fails()
+    if fails:
+        res.violation('impl-violation',
+                      'LIKE 1 BUT MAT=0 (base material 1, density -1.0) is '
+                      'not converted as the void card it abbreviates: '
+                      + detail,
+                      {'input': {'deck': WITNESS_VOID,
+                                 'expanded': WITNESS_VOID_EXPANDED}},
+                      cls=VOID_CLASS, found_input=True)
+
     # ---- 2. decks: sweep + tie cases ----
     cases, meta = [], []
     split_cases = []
     n_pts_done = 0
-    for i in range(n_valid + n_dec):
-        decreasing = i >= n_valid
-        deck = gen.gen_deck(rng, imp_decrease=decreasing)
+    n_void = 12 if quick else 150
+    for i in range(n_valid + n_dec + n_void):
+        decreasing = n_valid <= i < n_valid + n_dec
+        voiding = i >= n_valid + n_dec
+        deck = gen.gen_deck(rng, imp_decrease=decreasing,
+                            allow_void_mat=voiding)
         text = gen.render(deck, rng)
         n_like = sum(1 for c in deck['cells'] if c.get('like') is not None)
         chain = max_chain(deck)
         res.seen(text, nontrivial=n_like > 0)
         res.count(f'like-cards:{min(n_like, 6)}')
         res.count(f'chain-depth:{chain}')
-        res.count('stream:' + ('imp-decreasing' if decreasing else 'valid'))
+        res.count('stream:' + ('imp-decreasing' if decreasing else
+                               'void-mat' if voiding else 'valid'))
         for c in deck['cells']:
             for key in c.get('but', {}):
                 res.count('but:' + key)
-        do_points = n_pts_done < n_points and not decreasing
+        do_points = n_pts_done < n_points and not decreasing \
+            and not voiding
         failures, obs = sweep_deck(res, deck, text, rng, do_points)
         n_pts_done += do_points
         for kind, what, cls in failures:
             if cls == 'skip':
                 res.count('points-skip')
                 continue
+            if cls:
+                res.count(f'known:{cls}:{kind}')
             res.violation('impl-violation', f'[{kind}] {what}',
                           {'input': {'deck': text,
                                      'expanded': gen.render(gen.expand(deck))},
